@@ -230,6 +230,17 @@ def emit(repo, spec, H):
     plumbing("copy_sds", "mfhdf/hrepack/hrepack_sds.c", "copy_sds", "SDgetinfo", "SDcreate",
              [("create2", "SDcreate", 1), ("diminfo", "SDdiminfo", 0), ("setdimname", "SDsetdimname", 1),
               ("getdimscale", "SDgetdimscale", 0), ("setdimscale", "SDsetdimscale", 0)])
+    # whole-object transfers: the start / edges the one-piece reads and writes use, per dimension
+    for fn_, f_, nm_ in (("copy_sds", "mfhdf/hrepack/hrepack_sds.c", "copy_sds"), ("copy_gr", "mfhdf/hrepack/hrepack_gr.c", "copy_gr")):
+        b_ = H.func_body(H.raw(repo, f_), fn_)
+        me = re.findall(r"\bedges\[(\w)\]\s*=\s*([^;]+);", b_)
+        ms = re.findall(r"\bstart\[(\w)\]\s*=\s*([^;]+);", b_)
+        if len(me) != 1 or len(ms) != 1 or me[0][0] != ms[0][0]:
+            raise ValueError("%s: start/edges of the whole-object transfer not found exactly once" % fn_)
+        ix = me[0][0]
+        out.append("(* %s: %s: edges[%s] = %s; start[%s] = %s *)" % (f_, fn_, ix, me[0][1].strip(), ix, ms[0][1].strip()))
+        out.append("Definition %s_edge (dim : Z) : Z := %s." % (nm_, H.P(me[0][1].replace("dimsizes[%s]" % ix, " dim "), ["dim"], {}).ternary_all()))
+        out.append("Definition %s_start (dim : Z) : Z := %s." % (nm_, H.P(ms[0][1].replace("dimsizes[%s]" % ix, " dim "), ["dim"], {}).ternary_all()))
     # the guard of the dimension-scale copy
     bsds = H.func_body(H.raw(repo, "mfhdf/hrepack/hrepack_sds.c"), "copy_sds")
     mg = re.findall(r"if\s*\(([^;{}]*)\)\s*\{\s*int\s+okdim\s*;", bsds)
